@@ -184,9 +184,17 @@ func runAttribution(c *Ctx) {
 			kindsOnly: []string{"txXid", "txCommit", "autoRows", "ddl", "txRollback"}}
 		h := genHistory(r, cfg, o)
 		// several tables share one table id: every table map re-announces the id, possibly for another table
-		mode := []string{"distinct-ids", "shared-id", "two-ids", "shared-id-same-name-other-db", "shared-id-same-db-other-name"}[hi%5]
+		mode := []string{"distinct-ids", "shared-id", "two-ids", "shared-id-same-name-other-db", "shared-id-same-db-other-name", "boundary-ids"}[hi%6]
+		edge := []uint64{0xffffff, 0xffffffff, 0, 1, 0xfffffe, 0x1000000, 0x7fffffff, 0x80000000}
+		if !cfg.Tid4 {
+			edge = append(edge, 0xffffffffffff, 0x100000000, 0xffffffffff)
+		}
+		r.Shuffle(len(edge), func(a, b int) { edge[a], edge[b] = edge[b], edge[a] })
 		for i := range h.tables {
 			switch mode {
+			case "boundary-ids":
+				// ids at the edges of the 4- / 6-byte id space (all-ones values look like sentinels, but are ids)
+				h.tables[i].id = edge[i%len(edge)]
 			case "shared-id":
 				h.tables[i].id = 77
 			case "two-ids":
